@@ -280,6 +280,10 @@ CONC_CASES = {
     # another (activated) connection leaves and comes back while updates are fanned out: the observer's stream is unaffected
     'assign-vs-leaver': [[['assign', 'm', 'value', 1.5], ['assign', 'm', 'x', 7]], [['req', 'deactivate'], ['req', 'activate']]],
     'assign-vs-joiner': [[['assign', 'm', 'value', 1.5]], [['req', 'deactivate'], ['req', 'activate m'], ['req', '*IDN?']]],
+    # a connection activating while updates happen: from its snapshot on, its stream must reconstruct the cache as well
+    'fresh-activate-vs-assigns': [[['assign', 'm', 'value', 1.5], ['assign', 'm', 'x', 7], ['assign', 'm', 'value', 2.5]], [['req', 'activate']]],
+    'fresh-activate-module-vs-assigns': [[['assign', 'm', 'value', 1.5], ['assign', 'm', 'value', 2.5]], [['req', 'activate m']]],
+    'rejoin-vs-assigns': [[['assign', 'm', 'value', 1.5], ['assign', 'm', 'value', 2.5]], [['req', 'deactivate'], ['req', 'activate']]],
 }
 CONC_READS = {
     'default': {'m': {'x': [11, 12], 'value': [9.5, 8.5]}},
@@ -291,8 +295,10 @@ def conc_cases(tier):
     res = []
     for name, threads in CONC_CASES.items():
         res.append({'kind': 'conc', 'name': name, 'threads': threads, 'level': 'sync', 'bound': 2 if tier == 'quick' else 3})
-        if tier == 'thorough' or name in ('two-assign', 'recover-equal', 'read-write-assign', 'reassign-current-vs-change'):
-            res.append({'kind': 'conc', 'name': name + '/line', 'threads': threads, 'level': 'line', 'bound': 1 if tier == 'quick' else 2})
+        if tier == 'thorough' or name in ('two-assign', 'recover-equal', 'read-write-assign', 'reassign-current-vs-change',
+                                          'fresh-activate-vs-assigns', 'fresh-activate-module-vs-assigns', 'rejoin-vs-assigns'):
+            res.append({'kind': 'conc', 'name': name + '/line', 'threads': threads, 'level': 'line',
+                        'bound': 2 if tier != 'quick' or name == 'fresh-activate-module-vs-assigns' else 1})
     return res
 
 
@@ -303,7 +309,7 @@ def conc_execute(case, prefix):
     kinds = None if case['level'] == 'line' else {'acquire', 'tryacquire', 'release', 'recv', 'send', 'send2', 'spawn', 'join',
                                                   'set', 'clear', 'wait', 'put', 'get', 'poll', 'sleep', 'yield'}
     sched = schedx.Scheduler(prefix, point_kinds=kinds, max_steps=5000)
-    holder = {}
+    holder = {'threads': case['threads']}
     reads = CONC_READS.get(case['name'].split('/')[0], CONC_READS['default'])
     reads = {m: {p: [HardwareError('readfail') if v == 'EXC' else v for v in vs] for p, vs in d.items()} for m, d in reads.items()}
 
@@ -317,10 +323,13 @@ def conc_execute(case, prefix):
         holder['obs'] = obs
         reqconn = N.ObserverConn(sched, 'c4')     # the connection issuing change requests (not activated)
         node.dispatcher.add_connection(reqconn)
-        other = N.ObserverConn(sched, 'c5')       # a further activated connection that changes its activation state
+        other = N.ObserverConn(sched, 'c5')       # a further connection that changes its activation state
+        holder['other'] = other
         if any(op[0] == 'req' for ops in case['threads'] for op in ops):
             node.dispatcher.add_connection(other)
-            node.request_msg(other, ('activate', None, None))
+            if not case['name'].startswith('fresh-'):
+                node.request_msg(other, ('activate', None, None))
+                other.lines.clear()
         sched.log.append(('init', N.current_cache(node)))
         sched.begin()
 
@@ -374,6 +383,17 @@ def conc_judge(sched, x, holder):
         last = got[-1] if got else init[p]
         if last != final[p]:
             viol.append(('conc:last-message-differs-from-cache', f'{p}: last message {last} but the cache holds {final[p]}'))
+    # the connection that (re)activated meanwhile: the last message it holds for every parameter equals the cache
+    reqs = [op[1] for ops in holder.get('threads', []) for op in ops if op[0] == 'req']
+    if reqs and reqs[-1].startswith('activate'):
+        other = holder['other']
+        for p in init:
+            got = [k[2] for k in (N.msg_key(l) for l in other.lines) if k[0] == 'update' and k[1] == p]
+            if not got:
+                viol.append(('conc:activating-connection:no-message-for-a-parameter-in-scope', f'{p}: nothing received; cache {final[p]}'))
+            elif got[-1] != final[p]:
+                viol.append(('conc:activating-connection:last-message-differs-from-cache',
+                             f'{p}: the connection that sent {reqs} holds {got[-1]} (messages {got}) but the cache holds {final[p]}'))
     return viol
 
 
@@ -384,6 +404,8 @@ def conc_trace(case):
     if case['level'] == 'line':
         # all read wrappers share one code object (new_rfunc), all write wrappers another (new_wfunc)
         funcs = [mb.Module.announceUpdate, N.M.wrappedAttributes['read_x'], N.M.wrappedAttributes['write_x']]
+        if any(op[0] == 'req' for ops in case['threads'] for op in ops):
+            funcs = N.all_dispatcher_functions()      # activation racing with updates: every function of the dispatcher
         schedx.trace_lines(funcs)
     else:
         schedx.untrace_all()
